@@ -84,26 +84,26 @@ func genCase(t *rapid.T) Case {
 		maxLen = 80
 	}
 	c := Case{
-		Reader:  rapid.SampledFrom([]string{"zng", "zng", "plain"}).Draw(t, "reader"),
-		Frame:   rapid.SampledFrom([]int{1, 40, 200, 1000, 100000}).Draw(t, "frame"),
-		Threads: rapid.SampledFrom([]int{1, 1, 2, 4}).Draw(t, "threads"),
-		Batch:   rapid.SampledFrom([]int{1, 2, 3, 7, 100}).Draw(t, "batch"),
+		Reader:  prog.Pick(t, []string{"zng", "zng", "plain"}, "reader"),
+		Frame:   prog.Pick(t, []int{1, 40, 200, 1000, 100000}, "frame"),
+		Threads: prog.Pick(t, []int{1, 1, 2, 4}, "threads"),
+		Batch:   prog.Pick(t, []int{1, 2, 3, 7, 100}, "batch"),
 	}
-	corpus := rapid.IntRange(0, 99).Draw(t, "corpus?") < 15
+	corpus := prog.Chance(t, 15, "corpus?")
 	var entry prog.CorpusEntry
 	if corpus {
 		entry = prog.DrawCorpus(t)
 	}
-	if corpus && entry.Input != "" && rapid.IntRange(0, 2).Draw(t, "owninput") > 0 {
+	if corpus && entry.Input != "" && prog.Chance(t, 66, "owninput") {
 		c.Input = gen.SeqFromZSON(entry.Input)
 	} else {
-		c.Input = prog.DrawInput(t, prog.InputOpts{MaxLen: maxLen, Rich: rapid.IntRange(0, 3).Draw(t, "rich") == 0,
-			CleanKey: rapid.Bool().Draw(t, "cleankey")})
+		c.Input = prog.DrawInput(t, prog.InputOpts{MaxLen: maxLen, Rich: prog.Chance(t, 25, "rich"),
+			CleanKey: prog.Chance(t, 50, "cleankey")})
 	}
 	schema := prog.Summarize(c.Input.Vals)
-	if rapid.IntRange(0, 99).Draw(t, "sortkey?") < 55 && len(schema.Fields) > 0 {
-		c.SortKey = schema.Fields[rapid.IntRange(0, len(schema.Fields)-1).Draw(t, "sortkey")].Name
-		c.Desc = rapid.IntRange(0, 9).Draw(t, "desc") < 4
+	if prog.Chance(t, 55, "sortkey?") && len(schema.Fields) > 0 {
+		c.SortKey = schema.Fields[prog.Uniform(t, len(schema.Fields), "sortkey")].Name
+		c.Desc = prog.Chance(t, 40, "desc")
 		sortInput(c.Input.Zctx, c.Input.Vals, c.SortKey, c.Desc)
 	}
 	if corpus {
@@ -190,6 +190,8 @@ type result struct {
 	dag   string // JSON of the plan that ran
 	meta  prog.Meta
 	use   bool
+	// the plan holds a summarize with >1 keys and an input sort direction
+	multiKeyStreaming bool
 }
 
 // dropErrorFilters rewrites every filter operator `where F` of an analysed
@@ -222,7 +224,58 @@ func dropErrorFilters(seq dag.Seq) {
 	}
 }
 
+// walkSeqs calls f on seq and on every nested sequence of its operators.
+func walkSeqs(seq dag.Seq, f func(dag.Seq)) {
+	f(seq)
+	for _, op := range seq {
+		switch op := op.(type) {
+		case *dag.Fork:
+			for _, p := range op.Paths {
+				walkSeqs(p, f)
+			}
+		case *dag.Switch:
+			for _, c := range op.Cases {
+				walkSeqs(c.Path, f)
+			}
+		case *dag.Over:
+			walkSeqs(op.Body, f)
+		case *dag.Scope:
+			walkSeqs(op.Body, f)
+		case *dag.Mirror:
+			walkSeqs(op.Main, f)
+			walkSeqs(op.Mirror, f)
+		}
+	}
+}
+
+// noStreamingMultiKeySummarize is applied to an OPTIMIZED plan: it takes the
+// input sort direction back out of every summarize with more than one key.
+func noStreamingMultiKeySummarize(seq dag.Seq) {
+	walkSeqs(seq, func(seq dag.Seq) {
+		for _, op := range seq {
+			if s, ok := op.(*dag.Summarize); ok && len(s.Keys) > 1 {
+				s.InputSortDir = 0
+			}
+		}
+	})
+}
+
+func hasStreamingMultiKeySummarize(seq dag.Seq) (found bool) {
+	walkSeqs(seq, func(seq dag.Seq) {
+		for _, op := range seq {
+			if s, ok := op.(*dag.Summarize); ok && len(s.Keys) > 1 && s.InputSortDir != 0 {
+				found = true
+			}
+		}
+	})
+	return found
+}
+
 func runOne(seq ast.Seq, src source, optimize bool, prep func(dag.Seq)) result {
+	return runOnePost(seq, src, optimize, prep, nil)
+}
+
+func runOnePost(seq ast.Seq, src source, optimize bool, prep, post func(dag.Seq)) result {
 	rt := prog.NewRuntime(zed.NewContext())
 	job, err := src.newJob(rt, seq)
 	if err != nil {
@@ -235,10 +288,14 @@ func runOne(seq ast.Seq, src source, optimize bool, prep func(dag.Seq)) result {
 		prep(job.Entry())
 	}
 	if optimize {
-		if err := job.Optimize(); err != nil {
+		if err := optimizeJob(job); err != nil {
 			rt.Cancel()
 			return result{stage: "optimize", err: err}
 		}
+	}
+	res.multiKeyStreaming = hasStreamingMultiKeySummarize(job.Entry())
+	if post != nil {
+		post(job.Entry())
 	}
 	b, _ := json.Marshal(job.Entry())
 	res.dag = string(b)
@@ -258,6 +315,16 @@ func runOne(seq ast.Seq, src source, optimize bool, prep func(dag.Seq)) result {
 		}
 	}
 	return res
+}
+
+// optimizeJob runs the optimizer and turns a panic inside it into an error.
+func optimizeJob(job *compiler.Job) (err error) {
+	defer func() {
+		if r := recover(); r != nil {
+			err = fmt.Errorf("panic: %v", r)
+		}
+	}()
+	return job.Optimize()
 }
 
 // runBoth executes the plan exactly as analysed and the optimized plan.
@@ -369,18 +436,27 @@ func joinDirs(dagJSON string) [][2]string {
 	return out
 }
 
-func keyHasNullOrMissing(c Case) bool {
+// keyNullMissing reports whether the declared sort key is null in some input value and missing in some.
+func keyNullMissing(c Case) (hasNull, hasMissing bool) {
 	if c.SortKey == "" {
-		return false
+		return false, false
 	}
 	e := expr.NewDottedExpr(c.Input.Zctx, field.Dotted(c.SortKey))
 	ectx := expr.NewContext()
 	for _, v := range c.Input.Vals {
-		if k := e.Eval(ectx, v); k.IsNull() || k.IsMissing() {
-			return true
+		k := e.Eval(ectx, v)
+		if k.IsMissing() {
+			hasMissing = true
+		} else if k.IsNull() {
+			hasNull = true
 		}
 	}
-	return false
+	return hasNull, hasMissing
+}
+
+func keyHasNullOrMissing(c Case) bool {
+	n, m := keyNullMissing(c)
+	return n || m
 }
 
 func runCase(c Case) *vt.Outcome {
@@ -456,6 +532,10 @@ func runCase(c Case) *vt.Outcome {
 		if plain.stage == "deadlock" {
 			return &vt.Outcome{Skip: "unoptimized-plan-deadlocks"}
 		}
+		if opt.stage == "optimize" && plain.stage == "" && strings.Contains(opt.err.Error(), "panic: Duplicate op value") {
+			o.Fail = vt.Failf("C07/optimize-panics/duplicate-pass-op", "Optimize panics (%v) on a program whose plan as analysed runs (%d values)\nprogram: %s", opt.err, len(plain.vals), c.Program)
+			return o
+		}
 		o.Fail = vt.Failf("C07/one-side-fails/"+plain.stage+"-vs-"+opt.stage,
 			"as analysed: stage=%q err=%v; optimized: stage=%q err=%v\nprogram: %s\nsort key: %q desc=%v", plain.stage, plain.err, opt.stage, opt.err, c.Program, c.SortKey, c.Desc)
 		return o
@@ -463,7 +543,7 @@ func runCase(c Case) *vt.Outcome {
 	if plain.stage != "" {
 		reason := plain.stage + "-fails-on-both"
 		if prog.IsPanic(plain.err) {
-			reason = "panic-on-both"
+			reason = "panic-on-both:" + panicFrame(plain.err)
 		}
 		return &vt.Outcome{Skip: reason}
 	}
@@ -494,14 +574,40 @@ func runCase(c Case) *vt.Outcome {
 			sig = "C07/sortkey-join/desc-null-keys"
 		}
 	}
+	if opt.multiKeyStreaming {
+		// Known: the optimizer marks a summarize as fed in key order when the
+		// sort key is ANY of its keys, the streaming group-by assumes it is the
+		// FIRST.  Without the direction on multi-key summarizes the optimized plan must agree.
+		if r := runOnePost(seq, src, true, nil, noStreamingMultiKeySummarize); r.stage == "" && compare(plain.vals, r.vals) == "" {
+			const known = "C07/sortkey-summarize/sort-key-not-first-groupby-key"
+			if vt.IsKnown(known) {
+				o.Known = append(o.Known, known)
+				return o
+			}
+			sig = known
+		}
+	}
+	if n, m := keyNullMissing(c); n && m && sig != "C07/sortkey-summarize/sort-key-not-first-groupby-key" && countRE(opt.dag, `"input_sort_dir":-?1`) > 0 {
+		sig = "C07/sortkey-summarize/null-and-missing-keys-interleaved"
+	}
 	if c.Reader == "zng" && strings.Contains(opt.dag, `"kind":"DefaultScan","filter":{`) {
-		// Is the scanner's pushdown the cause?  Run the same optimized plan over an opaque reader.
+		// Is the ZNG scanner's pushdown the cause?  Run the same optimized plan over an opaque reader.
 		alt := *src
 		alt.reader = "plain"
 		if r := runOne(seq, &alt, true, nil); r.stage == "" && compare(plain.vals, r.vals) == "" {
 			sig = "C07/zng-scanner-pushdown"
-			if strings.Contains(opt.dag, `"kind":"Search"`) {
-				sig = "C07/zng-scanner-pushdown/search"
+			// Which input values does the scanner lose?  Run only the leading filters over both readers.
+			lp, lz := runOne(seq, &alt, true, leadingFiltersOnly), runOne(seq, src, true, leadingFiltersOnly)
+			if lp.stage == "" && lz.stage == "" && len(prog.MultisetMinus(lz.vals, lp.vals)) == 0 &&
+				prog.AllOnlyNestedFieldName(prog.MultisetMinus(lp.vals, lz.vals), prog.SearchTerms(lz.dag)) {
+				// Known: keyword search vs field names of records inside containers.
+				// The optimized plan over the opaque reader agrees with the plan as
+				// analysed, so everything but the buffer filter has been checked.
+				sig = "C07/zng-bufferfilter/search-fieldname-inside-container"
+				if vt.IsKnown(sig) {
+					o.Known = append(o.Known, sig)
+					return o
+				}
 			}
 		}
 	}
@@ -523,6 +629,45 @@ func runCase(c Case) *vt.Outcome {
 	o.Fail = vt.Failf(sig, "%s\nprogram: %s\nsort key: %q desc=%v reader=%s\nas analysed -> %d values, optimized -> %d values\noptimized plan: %s",
 		diff, c.Program, c.SortKey, c.Desc, c.Reader, len(plain.vals), len(opt.vals), opt.dag)
 	return o
+}
+
+// leadingFiltersOnly reduces an analysed DAG to its source and the filters
+// that directly follow it (everything else becomes pass).
+func leadingFiltersOnly(seq dag.Seq) {
+	i := 1
+	for i < len(seq) {
+		if _, ok := seq[i].(*dag.Filter); !ok {
+			break
+		}
+		i++
+	}
+	for ; i < len(seq); i++ {
+		if _, ok := seq[i].(*dag.Output); ok && i == len(seq)-1 {
+			break
+		}
+		seq[i] = dag.PassOp
+	}
+	if n := len(seq); n > 0 {
+		if _, ok := seq[n-1].(*dag.Output); !ok {
+			seq[n-1] = &dag.Output{Kind: "Output", Name: "main"}
+		}
+	}
+}
+
+var frameRE = regexp.MustCompile(`github.com/brimdata/super/([A-Za-z0-9_/.]+\.\(?\*?[A-Za-z0-9_]+\)?\.[A-Za-z0-9_]+)`)
+
+// panicFrame names the first frame of the code under test below the recover point of a recovered panic.
+func panicFrame(err error) string {
+	s := err.Error()
+	if i := strings.Index(s, "panic({"); i >= 0 {
+		s = s[i:]
+	}
+	for _, m := range frameRE.FindAllStringSubmatch(s, -1) {
+		if !strings.Contains(m[1], "Catcher") {
+			return m[1]
+		}
+	}
+	return "?"
 }
 
 func srcKind(c Case) string {
